@@ -207,7 +207,20 @@ impl C17 {
                     false
                 }
             };
-            if !two_hop_ok && (two_hop_code == Some(6051) || (slices_well_formed && matches!(two_hop_code, Some(6048) | Some(6049) | Some(6053)))) && lg.v2 {
+            // ... or that misses hook accounts (6050) although a slice is listed for every token of the route whose mint calls a hook
+            let hook_slices_complete = slices_well_formed && {
+                let d = &v_ix.data;
+                let n = u32::from_le_bytes([d[60], d[61], d[62], d[63]]) as usize;
+                let listed: Vec<u8> = (0..n).map(|i| d[64 + 2 * i]).collect();
+                let calls_hook = |m: &Pubkey| -> bool {
+                    pre.get(m).map(|a| a.owner == ix::tok22() && crate::decode::tlv_entries(&a.data).iter().any(|(t, v)| *t == 14 && v.len() >= 64 && v[32..64].iter().any(|b| *b != 0))).unwrap_or(false)
+                };
+                let in_mint = if a.a_to_b_one { lg.s1.mint_a } else { lg.s1.mint_b };
+                let out_mint = if a.a_to_b_two { lg.s2.mint_b } else { lg.s2.mint_a };
+                // AccountsType: 3 TransferHookInput, 4 TransferHookIntermediate, 5 TransferHookOutput
+                [(in_mint, 3u8), (in_mint_two, 4u8), (out_mint, 5u8)].iter().all(|(m, ty)| !calls_hook(m) || listed.contains(ty))
+            };
+            if !two_hop_ok && (two_hop_code == Some(6051) || (slices_well_formed && matches!(two_hop_code, Some(6048) | Some(6049) | Some(6053))) || (hook_slices_complete && two_hop_code == Some(6050))) && lg.v2 {
                 let fund = |f: &mut Ledger, k: &Pubkey| {
                     if let Some(acc) = f.accts.get_mut(k) {
                         if acc.data.len() >= 72 {
